@@ -5,7 +5,9 @@ package scen
 
 import (
 	"encoding/json"
+	"errors"
 	"fmt"
+	"io"
 	"strings"
 
 	"github.com/alecthomas/participle/v2"
@@ -62,17 +64,68 @@ type Word struct {
 	Ident string `@Ident`
 }
 
+// Not fails with the negation's own error when a ";" follows the "!".
+type Not struct {
+	Not string `"!" @~";"`
+}
+
 func (Pair) val() {}
 func (Num) val()  {}
 func (Here) val() {}
 func (Word) val() {}
+func (Not) val()  {}
+
+// Yield is called by the slow readers before every Read; the schedule explorer makes it a scheduling
+// point, the race pass runtime.Gosched.
+var Yield = func() {}
+
+// slowReader is an io.Reader that is nothing else (no Len, no WriteTo): 16 bytes per Read, a scheduling
+// point before each, and optionally an error instead of the end of the text.
+type slowReader struct {
+	s    string
+	fail error
+}
+
+func (r *slowReader) Read(p []byte) (int, error) {
+	Yield()
+	if len(r.s) == 0 {
+		if r.fail != nil {
+			return 0, r.fail
+		}
+		return 0, io.EOF
+	}
+	n := 16
+	if n > len(r.s) {
+		n = len(r.s)
+	}
+	n = copy(p, r.s[:n])
+	r.s = r.s[n:]
+	return n, nil
+}
+
+var errReader = errors.New("reader broke")
+
+// KW is a grammar with a keyword literal, for parsers built with and without CaseInsensitive.
+type KW struct {
+	V string `"let" @Ident`
+}
+
+var kwLexer = lexer.MustSimple([]lexer.SimpleRule{{Name: "Ident", Pattern: `[a-zA-Z]+`}, {Name: "Space", Pattern: ` +`}})
+
+func buildAndParse(in string, opts ...participle.Option) string {
+	p, err := participle.Build[KW](append([]participle.Option{participle.Lexer(kwLexer), participle.Elide("Space")}, opts...)...)
+	if err != nil {
+		return "BUILD ERR " + err.Error()
+	}
+	return render(p.ParseString("f", in))
+}
 
 func NewDef() *lexer.StatefulDefinition { return lexer.MustStateful(HeredocRules()) }
 
 func NewParser() *participle.Parser[Doc] {
 	return participle.MustBuild[Doc](
 		participle.Lexer(NewDef()),
-		participle.Union[Val](Pair{}, Num{}, Here{}, Word{}),
+		participle.Union[Val](Pair{}, Num{}, Here{}, Word{}, Not{}),
 		participle.Elide("Space"),
 		participle.UseLookahead(2),
 		participle.Upper("Ident"),
@@ -125,7 +178,29 @@ const (
 	InLex  = "a = <<X unterminated $"
 	InAlt  = "k = <-XY body X;"
 	InBare = "a = 1; b = <= x X;"
+	InNot1 = "a = ! ;"
+	InNot2 = "b = 1;\n\nc = ! x; d = ! ;"
 )
+
+func parseFileCall(name, file, in string) Call {
+	return Call{Name: "ParseString(" + name + ")",
+		F: func(s any) string { return render(s.(*participle.Parser[Doc]).ParseString(file, in)) },
+		R: func(s any) func() string {
+			v, err := s.(*participle.Parser[Doc]).ParseString(file, in)
+			return func() string { return render(v, err) }
+		}}
+}
+
+func readerCall(name, in string, fail error) Call {
+	return Call{Name: "Parse(slow reader " + name + ")",
+		F: func(s any) string {
+			return render(s.(*participle.Parser[Doc]).Parse("f", &slowReader{s: in, fail: fail}))
+		},
+		R: func(s any) func() string {
+			v, err := s.(*participle.Parser[Doc]).Parse("f", &slowReader{s: in, fail: fail})
+			return func() string { return render(v, err) }
+		}}
+}
 
 func parseCall(name, in string) Call {
 	return Call{Name: "ParseString(" + name + ")",
@@ -179,6 +254,17 @@ func Scenarios() []Scenario {
 			}},
 			{Name: "ebnf(2)", F: func(any) string { return render(ebnf.ParseString(`X = ~"x" (?= Y ) Z+ . `)) }},
 		}},
+		{"S2f parser: two parses failing in a negation, at different places of different files", newParser, []Call{
+			parseFileCall("Not1", "one.conf", InNot1), parseFileCall("Not2", "two.conf", InNot2)}},
+		{"S4b parser: Parse(slow reader) || Parse(slow reader) || Parse(reader failing midway)", newParser, []Call{
+			readerCall("A", InA, nil), readerCall("B", InB, nil), readerCall("broken", "zz = 1; yy = ", errReader)}},
+		{"S5 Build || Build with CaseInsensitive (package-level state)", func() any { return nil }, []Call{
+			{Name: "Build(plain) then ParseString(LET x)", F: func(any) string { return buildAndParse("LET x") }},
+			{Name: "Build(CaseInsensitive Ident) then ParseString(LET x)", F: func(any) string {
+				return buildAndParse("LET x", participle.CaseInsensitive("Ident"))
+			}},
+			{Name: "Build(plain) then ParseString(let x)", F: func(any) string { return buildAndParse("let x") }},
+		}},
 		{"S4 parser: ParseBytes || Lex || Parse(reader)", newParser, []Call{
 			{Name: "ParseBytes(A)", F: func(s any) string { return render(s.(*participle.Parser[Doc]).ParseBytes("f", []byte(InA))) }},
 			{Name: "Lex(B)", F: func(s any) string { return render(s.(*participle.Parser[Doc]).Lex("f", strings.NewReader(InB))) }},
@@ -203,6 +289,8 @@ func HistoryCalls() []Call {
 			}
 			return render(pp.ParseString("f", "k = 7;"))
 		}},
+		parseFileCall("Not1", "one.conf", InNot1), parseFileCall("Not2", "two.conf", InNot2),
+		readerCall("A", InA, nil), readerCall("broken", "zz = 1; yy = ", errReader),
 		{Name: "ParseBytes(empty)", F: func(s any) string { return render(s.(*participle.Parser[Doc]).ParseBytes("", nil)) }},
 		{Name: "ParseString(trailing garbage)", F: func(s any) string { return render(s.(*participle.Parser[Doc]).ParseString("f", "a = 1; ; ;")) }},
 		{Name: "ParseString(trailing garbage, AllowTrailing)", F: func(s any) string {
